@@ -102,7 +102,7 @@ def main(tier):
     rep = common.Report("C05", tier, "model_checking")
     aligned_lists(rep)
     spec = C05Spec(tier)
-    res = engine_s.explore(spec, time_cap=240 if tier == "quick" else 3000, seed=common.SEED)
+    res = engine_s.explore(spec, time_cap=120 if tier == "quick" else 3000, seed=common.SEED)
     for sig, det in res.violations:
         rep.violation(sig, det)
     rep.coverage.update({
